@@ -6,6 +6,15 @@ Driver glue for M-Classes (C15).  Not part of the proved core.
                                    (the roles the generated content makes the path create)
   (multi (<name> (<role> …)) …)   the union of several path queries (one sweep after several operations)
   (props <Glyph|Contour>)         the values of the public class properties of such an object
+  (census "<site id>" …)          the creation sites of the regenerated table (guards aside, the listed ids aside), each
+                                   with the role the catalogue says it creates, or `scratch`
+  (foreign "<entry id>" <base|registered|unrelated>)
+                                   what the entry point (delegations followed) makes of an object of defcon's class /
+                                   of the class expected for the role / of an unrelated subclass: `(asIs)` or
+                                   `(rebuilt <class>)`
+  (free <Glyph|Contour> <own|registered> (<role> …))
+                                   the classes instantiated for the roles on path "freeStanding" inside an object the
+                                   USER constructed with the registered classes handed in (and what is created from it)
 -/
 import DefconModel.Util.SExp
 import DefconModel.Spec.Classes
@@ -57,8 +66,69 @@ def propsOut (cfg : Cfg) (cls : String) : SExp :=
     else .atom "fail"
   | _, _ => .atom "fail"
 
+def censusOut (never : List String) : SExp :=
+  let w := Gen.ClassWiring.wiring
+  tagged "set" ((w.sites.filter fun s => !s.guard && !never.contains s.id).map fun s =>
+    match dispOf s.id with
+    | some (.handedOut r) => .list [.str s.id, .atom (roleName r)]
+    | some .scratch => .list [.str s.id, .atom "scratch"]
+    | some (.guard _) => .list [.str s.id, .atom "guard"]
+    | none => .list [.str s.id, .atom "uncatalogued"])
+
+def ownerVia (c : CName) : Option (List String) :=
+  if c = "Font" then some [] else if c = "LayerSet" then some toLayerSet else if c = "Layer" then some toLayer
+  else if c = "Glyph" then some toGlyph else if c = "Contour" then some toContour else none
+
+def foreignOut (cfg : Cfg) (entry : String) (kind : String) : SExp :=
+  let w := Gen.ClassWiring.wiring
+  match (w.entry entry).bind (resolveEntry w 4), entryRole entry with
+  | some e, some r =>
+    let given : Option Val :=
+      if kind = "base" then some (.builtin (dfltName r))
+      else if kind = "registered" then some (expected cfg r)
+      else if kind = "unrelated" then some (.user 99 (dfltName r))
+      else none
+    match given, (ownerVia e.owner).bind (reachIds w cfg) with
+    | some g, some o =>
+      match store w o e g with
+      | some .asIs => .list [.atom "asIs"]
+      | some (.rebuilt k) => .list [.atom "rebuilt", encVal (some k)]
+      | none => .atom "fail"
+    | _, _ => .atom "fail"
+  | _, _ => .atom "unlisted"
+
+/-- the classes on path "freeStanding" inside a user-constructed root (the steps executed in the glyph / contour
+itself or in what is created from it; the step that creates the root itself is the user's) -/
+def freeOut (cfg : Cfg) (cls : String) (own : Bool) (roles : List Role) : SExp :=
+  let w := Gen.ClassWiring.wiring
+  let pre := if cls = "Glyph" then toGlyph else toContour
+  let kws := if cls = "Glyph" then glyphKw else contourKw
+  let r0 : Role := if cls = "Glyph" then .glyph else .contour
+  let self : Val := if own then .builtin cls else expected cfg r0
+  let clsOf (st : PathStep) : Option Val :=
+    match (st.via.drop pre.length).mapM w.site, w.site st.site with
+    | some chain, some s => (reachFrom w (freeRoot w cfg cls self kws) chain).bind fun o => classAt w o s
+    | _, _ => none
+  tagged "set" ((roles.flatMap fun r =>
+    ((stepsFor "freeStanding" r).filter fun st => st.via.take pre.length == pre).map fun st =>
+      SExp.list [.atom (roleName r), encVal (clsOf st)]).eraseDups)
+
 def driverStep (d : DState) (line : SExp) : DState × SExp :=
   match line with
+  | .list (.atom "census" :: never) =>
+    match never.mapM asStr? with
+    | some ids => (d, censusOut ids)
+    | none => (d, .atom "bad-op")
+  | .list [.atom "foreign", .str entry, .atom kind] =>
+    if kind = "base" || kind = "registered" || kind = "unrelated" then (d, foreignOut d.toCfg entry kind)
+    else (d, .atom "bad-op")
+  | .list [.atom "free", .atom cls, .atom how, .list roles] =>
+    match roles.mapM parseRole with
+    | some rs =>
+      if (cls = "Glyph" || cls = "Contour") && (how = "own" || how = "registered") then
+        (d, freeOut d.toCfg cls (how = "own") rs)
+      else (d, .atom "bad-op")
+    | none => (d, .atom "bad-op")
   | .list (.atom "config" :: items) =>
     match items.mapM (fun it => match it with
         | .list [r, i] => do some ((← parseRole r), (← asNat? i))
@@ -72,13 +142,17 @@ def driverStep (d : DState) (line : SExp) : DState × SExp :=
   | .list (.atom "multi" :: qs) =>
     -- several path queries answered at once (a sweep that follows several operations): union of the sets
     match qs.mapM (fun q => match q with
+        | .list [.atom "free", .atom cls, .atom how, .list roles] => do
+          let rs ← roles.mapM parseRole
+          if (cls = "Glyph" || cls = "Contour") && (how = "own" || how = "registered") then
+            some (freeOut d.toCfg cls (how = "own") rs) else none
         | .list [.atom name, .list roles] => do
           let rs ← roles.mapM parseRole
-          if (AL.get? paths name).isSome then some (name, rs) else none
+          if (AL.get? paths name).isSome then some (pathOut d.toCfg name rs) else none
         | _ => none) with
     | some items =>
       (d, tagged "set" ((items.flatMap fun it =>
-        match pathOut d.toCfg it.1 it.2 with
+        match it with
         | .list (_ :: xs) => xs
         | _ => []).eraseDups))
     | none => (d, .atom "bad-op")
